@@ -139,6 +139,9 @@ def eq_literal_test(cond):
         r = eq_literal_test(c["e"])
         if r:
             return (r[0], r[1], not r[2])
+    # <expr>.is_empty() is <expr> == ""
+    if c.get("k") == "mcall" and c.get("name") == "is_empty" and not c.get("args") and (c.get("def") or "").endswith(("str>::is_empty", "String::is_empty")):
+        return (c["recv"], "", False)
     return None
 
 
